@@ -598,3 +598,69 @@ def c36(workflow, fail, x, flag_all):
     if sorted(flags) != sorted(e for _, e in results):
         return "%s: end-record error flags %s do not match the stored results %s" % (desc, sorted(flags), sorted(e for _, e in results))
     return None
+
+
+def c13_opt(mode, x, again):
+    """python task with an optional output: a returned dict must still provide every mandatory output"""
+    E.reset()
+    R.clear()
+    d = E.scratch()
+    try:
+        out1, e1 = call(D.TwoOpt(mode=mode, x=x), cache_root=d)
+        out2 = e2 = None
+        if again:
+            out2, e2 = call(D.TwoOpt(mode=mode, x=x), cache_root=d)
+        n = len(bodies("TwoOpt"))
+    finally:
+        E.cleanup(d)
+    T.reach()
+    valid = mode in (0, 1, 6)
+    if valid:
+        if e1 is not None or (out1.a, out1.b) != (x, 2):
+            return "valid return mode %d: %r / %r" % (mode, e1, out1)
+        return None
+    if mode == 7:
+        return None          # a 2-tuple for three declared outputs: arity rule, not judged here
+    if e1 is None:
+        return "TwoOpt mode %d: a returned value that lacks a mandatory output was accepted: %r" % (mode, out1)
+    if again and (e2 is None or n != 2):
+        return "TwoOpt mode %d: second submission %r, bodies %d" % (mode, e2 or out2, n)
+    return None
+
+
+def c13_shell(rc, again):
+    """shell task whose process ends with return code rc (the process itself is stubbed)"""
+    import types
+    import pydra.environments.base as B
+    E.reset()
+    R.clear()
+    runs = []
+
+    class SP:
+        PIPE = -1
+
+        @staticmethod
+        def run(cmd, stdout=None, stderr=None, **kw):
+            runs.append(list(cmd))
+            return types.SimpleNamespace(returncode=rc, stdout=b"out", stderr=b"err-text")
+    saved = B.sp
+    B.sp = SP
+    d = E.scratch()
+    try:
+        out1, e1 = call(D.Sh(v="x"), cache_root=d)
+        out2 = e2 = None
+        if again:
+            out2, e2 = call(D.Sh(v="x"), cache_root=d)
+    finally:
+        B.sp = saved
+        E.cleanup(d)
+    T.reach()
+    if rc == 0:
+        if e1 is not None or (again and (e2 is not None or len(runs) != 1)):
+            return "exit code 0: %r / %r, process started %d time(s)" % (e1, e2, len(runs))
+        return None
+    if e1 is None:
+        return "process ended with return code %d but the submission succeeded: %r" % (rc, out1)
+    if again and (e2 is None or len(runs) != 2):
+        return "return code %d: second submission %r, process started %d time(s) (a failure must not be served from the cache)" % (rc, e2 or out2, len(runs))
+    return None
